@@ -16,6 +16,7 @@ def run(tier, seed):
             cases.append(Case('E2_canonical_%d' % n, 'crypto', 'zzC05_E2_canonical', [n]))
         cases.append(Case('BLS_pubkey_%d' % n, 'crypto', 'zzC05_BLS_pubkey', [n, False]))
         cases.append(Case('BLS_privkey_%d' % n, 'crypto', 'zzC05_BLS_privkey', [n]))
+    cases.append(Case('zcash_g2', 'crypto', 'zzC05_zcash_g2', []))
     cases.append(Case('BLS_pubkey_compressedAPI_96', 'crypto', 'zzC05_BLS_pubkey', [96, True]))
     # BLS signature parsing inside verification: a signature with trailing / missing bytes is not accepted
     for extra in (-1, 1, 48):
@@ -29,7 +30,7 @@ def run(tier, seed):
             cases.append(Case('ECDSA_privkey_a%d_%d' % (algo, n), 'crypto', 'zzC05_ecdsa_private', [algo, n], opts=EO))
             cases.append(Case('ECDSA_pubkey_a%d_%d' % (algo, n), 'crypto', 'zzC05_ecdsa_public', [algo, n, False], opts=EO))
             cases.append(Case('ECDSA_pubkey_compressed_a%d_%d' % (algo, n), 'crypto', 'zzC05_ecdsa_public', [algo, n, True], opts=EO))
-    cases.sort(key=lambda c: -(c.args[0] in (48, 96, 32) or (len(c.args) > 1 and c.args[1] in (32, 33, 64))))
+    cases.sort(key=lambda c: -(bool(c.args) and (c.args[0] in (48, 96, 32) or (len(c.args) > 1 and c.args[1] in (32, 33, 64)))))
     return run_check('C05', cases, tier, seed, setup='symex.setup_c:with_c',
         functions=FUNCS,
         bounds={'content': 'every byte of the input symbolic (all 2^384 / 2^768 / 2^256 strings of the exact lengths at once)',
